@@ -91,3 +91,54 @@ Theorem c03_a_dead_entity_id_stays_dead_through_a_propagation :
     PE k w -> PE k (WorldFrame.res_world (flush beh q w)).
 Proof. exact flush_PE. Qed.
 Print Assumptions c03_a_dead_entity_id_stays_dead_through_a_propagation.
+
+(* "identifies exactly one new component-less entity from the moment its Spawn event has been delivered": the composition
+   from the id a reservation returns to the entity that exists afterwards, for a fixed id k (SpawnIds.v).
+   Slot-map core, with no capacity hypothesis: the key NextKeyIter predicted first is the key insert_with returns, the
+   insertion cannot fail, and the remaining predictions stay the same on the map after the insertion. *)
+Require Import EV.SpawnIds EV.NoUB EV.EvLedger.
+Theorem c03_prediction_and_insertion_agree_step_by_step :
+  forall (V : Type) (f : key -> V) (m : smap V) (k : key) (ks : list key) (i : N) (n : nat), SmInv m ->
+    predict (S n) (next_key_iter m) m = Some (k :: ks, i) ->
+    exists m', insert_with f m = Some (k, m') /\ predict n (next_key_iter m') m' = Some (ks, i).
+Proof. exact @predict_insert. Qed.
+Print Assumptions c03_prediction_and_insertion_agree_step_by_step.
+
+(* OW k w: the entity map is well formed, the cursor invariant holds with promised list ks, and k is in ks or was
+   created (live, or dead for good).  The reservation that returns k establishes it ... *)
+Theorem c03_the_id_a_reservation_returns_is_owed :
+  forall (w : world) (k : key) (w' : world), SmInv (w_ents w) -> ReserveInv w -> reserve w = ROk k w' -> OW k w'.
+Proof. exact reserved_id_is_owed. Qed.
+Print Assumptions c03_the_id_a_reservation_returns_is_owed.
+
+(* ... every step of a propagation keeps it, for every handler behaviour and from any state (only the model's
+   "cannot happen" failures FUB, which no reachable world produces, are excluded) ... *)
+Theorem c03_an_owed_id_stays_owed_through_a_propagation :
+  forall (beh : hinfo -> logent -> N -> script) (k : key) (q : list qitem) (w : world),
+    OW k w -> ~ ubf (EvLedger.res_fail (flush beh q w)) -> OW k (WorldFrame.res_world (flush beh q w)).
+Proof. exact flush_OW. Qed.
+Print Assumptions c03_an_owed_id_stays_owed_through_a_propagation.
+
+(* ... the Spawn effect cannot fail under it, creates the id and leaves nothing reserved ... *)
+Theorem c03_the_spawn_effect_creates_every_owed_id :
+  forall (k : key) (ev : evv) (loc : eloc) (w : world), OW k w ->
+    exists w', builtin_effect KSpawn ev loc w = ROk tt w' /\ Quiet w' /\ (sm_get k (w_ents w') <> None \/ Dead (w_ents w') k).
+Proof. exact spawn_effect_creates_owed. Qed.
+Print Assumptions c03_the_spawn_effect_creates_every_owed_id.
+
+(* ... and when the propagation is over with nothing reserved (c03_a_propagation_ends_quiet), the id was created: it is
+   the id of a live entity, or of an entity despawned since, whose id is dead for good. *)
+Theorem c03_an_owed_id_was_created_when_the_propagation_ends :
+  forall (beh : hinfo -> logent -> N -> script) (k : key) (q : list qitem) (w : world),
+    OW k w -> ~ ubf (EvLedger.res_fail (flush beh q w)) -> w_rcnt (WorldFrame.res_world (flush beh q w)) = 0 ->
+    let w' := WorldFrame.res_world (flush beh q w) in sm_get k (w_ents w') <> None \/ Dead (w_ents w') k.
+Proof. exact owed_id_is_created. Qed.
+Print Assumptions c03_an_owed_id_was_created_when_the_propagation_ends.
+
+(* before that moment a promised id is neither live nor dead (concrete map: one live entity, one recycled slot) *)
+Theorem c03_a_promised_id_is_not_created_before :
+  predict 2%nat (next_key_iter mx) mx = Some ([(0, 3); (2, 1)], 3) /\
+  (forall k, In k [(0, 3); (2, 1)] -> ~ created mx k) /\
+  (exists m', inserts 2%nat (fun _ => (0, 0)) mx = Some ([(0, 3); (2, 1)], m') /\ forall k, In k [(0, 3); (2, 1)] -> sm_get k m' <> None).
+Proof. exact promised_ids_are_not_created_yet. Qed.
+Print Assumptions c03_a_promised_id_is_not_created_before.
